@@ -22,11 +22,11 @@ def run(ctx):
     fams = ["corpus", "corrupt", "random", "alphabet", "adversarial", "splice", "meta"]
     cov = deccheck.run_decoder_traces(ctx, fams, 3000 if quick else 150000, KINDS,
                                       "decoder safety/prefix/outcome mismatch")
-    # boundedness in the length of a path: one path of millions of separate drawing opcodes (12 MB), decoded in a
+    # boundedness in the length of a path: one path of millions of separate drawing opcodes (18 MB quick, 40 MB thorough), decoded in a
     # process of its own with the runtime's default limits; a decoder whose own stack grows with the number of
     # instructions is killed by the Go runtime ("fatal error: stack overflow"), which no recover() can catch
     import json
-    deep, _ = ctx.run_harness(["deep-dec", "-n", "6000000" if quick else "20000000"], check=False, timeout=1200)
+    deep, _ = ctx.run_harness(["deep-dec", "-n", "9000000" if quick else "20000000"], check=False, timeout=1200)
     if deep.returncode != 0:
         if "stack overflow" in deep.stderr or "goroutine stack exceeds" in deep.stderr:
             ctx.violation("deep:stack-overflow", "decoding one long path kills the process: the decoder's stack grows with the "
@@ -48,7 +48,7 @@ def run(ctx):
                     family_stats=cov["stats"], loose_inputs_not_judged=cov["loose_inputs"], long_path=deepsum)
     return vlib.finish(ctx, "model_checking", coverage, [
         "inputs <= 64 KiB for the trace-validated families; watchdog 20 s per entry point is the only timing-based verdict",
-        "the long-path probe (12 MB / 40 MB, one path) is judged by its call count and by the process surviving, not call by call",
+        "the long-path probe (18 MB / 40 MB, one path) is judged by its call count and by the process surviving, not call by call",
         "the rasteriser is a recording one (x/image/vector is not fed hostile numbers)",
         "metadata chunks out of MID order / repeated are accepted either way (not judged)",
         "call hashes (prefix property) are computed by the harness over the JSON of each call"])
